@@ -132,7 +132,9 @@ def inInt64 (v : Int) : Bool := -9223372036854775808 ≤ v && v ≤ 922337203685
 /-- the re-enabled opcodes (`--allow-disabled-opcodes`): the functions their names denote -/
 def execExtended (rm : Bool) (op : Opcode) (st : St) : R St :=
   match op, st.stack with
-  | .OP_CAT, x2 :: x1 :: s => .ok { st with stack := (x1 ++ x2) :: s }
+  | .OP_CAT, x2 :: x1 :: s =>
+      -- the result is a stack element: at most 520 bytes (as in the original OP_CAT and in BIP347)
+      if x1.length + x2.length > 520 then .error .PUSH_SIZE else .ok { st with stack := (x1 ++ x2) :: s }
   | .OP_SUBSTR, sz :: bg :: x :: s => do
       let b ← numOf rm 2 bg
       if b < 0 then .error .UNKNOWN_ERROR
